@@ -105,11 +105,22 @@ def run_inject1(prim, depth, inner, post, prop, random=None):
     cmd = ("set -o pipefail; %s 2>%s | tee >(grep ' V:' | awk 'NR<=200' > %s) | %s > %s"
            % (gen, fs, fv, ACCEPT, fr))
     t0 = time.time()
-    p = subprocess.run(["bash", "-c", cmd], capture_output=True, text=True, env=ENV)
+    # own process group, so that a generator that spins (a changed crate may loop under injection)
+    # can be killed together with the rest of the pipeline; the run then counts as incomplete
+    import signal
+    pr = subprocess.Popen(["bash", "-c", cmd], stdout=subprocess.PIPE, stderr=subprocess.PIPE, text=True, env=ENV,
+                          start_new_session=True)
+    try:
+        _, err_ = pr.communicate(timeout=3000)
+        rc_ = pr.returncode
+    except subprocess.TimeoutExpired:
+        os.killpg(pr.pid, signal.SIGKILL)
+        _, err_ = pr.communicate()
+        rc_, err_ = 124, (err_ or "") + "\ntimeout: the injection pipeline was killed after 3000 s"
     # the process substitution may still be flushing
     time.sleep(0.2)
-    res = {"prim": random[0] if random else prim, "depth": depth, "inner": inner, "s": round(time.time() - t0, 1), "rc": p.returncode,
-           "scenarios": 0, "accepted": 0, "rejected": [], "violations": [], "stderr": p.stderr[-2000:]}
+    res = {"prim": random[0] if random else prim, "depth": depth, "inner": inner, "s": round(time.time() - t0, 1), "rc": rc_,
+           "scenarios": 0, "accepted": 0, "rejected": [], "violations": [], "stderr": err_[-2000:]}
     try:
         st = open(fs).read()
         m = re.search(r"scenarios=(\d+) violations=(\d+)", st)
